@@ -195,6 +195,55 @@ def run_forecast(c):
     except Exception as e:  # noqa
         out['validation'] = exc(e)
     B = c['budget']
+    if c.get('history'):
+        # HISTORY: the same model object is first used on data set A (other covariates, SAME database / row
+        # names), through validation(), forecast_bisection_one_draw and forecast(); everything below is its second
+        # use, on data set B.  Nothing of the first use may leak into the second.
+        first = {}
+        try:
+            from biogeme.database import Database
+            zA = float(c['history']['z'])
+            rowA = Database('r', pd.DataFrame([{'z': zA, 'dummy': 0.0}]))
+            try:
+                first['validation'] = [str(x)[:200] for x in m.validation(rowA)]
+            except Exception as e:  # noqa
+                first['validation'] = exc(e)
+            for eps_lab in c['draws']:
+                try:
+                    sol = m.forecast_bisection_one_draw(one_row_of_database=rowA, total_budget=c['budget'],
+                                                        epsilon=eps_by_position(m, c, eps_lab))
+                    first.setdefault('bis', []).append({str(k): fin(v) for k, v in sol.items()})
+                except Exception as e:  # noqa
+                    first.setdefault('bis', []).append(exc(e))
+            try:
+                dbA = Database('d', pd.DataFrame([{'z': zA, 'dummy': 0.0}]))
+                eps_all = np.array([eps_by_position(m, c, e) for e in c['draws']])
+                m.forecast(database=dbA, total_budget=c['budget'], epsilons=[eps_all])
+                first['api'] = 'ok'
+            except Exception as e:  # noqa
+                first['api'] = exc(e)
+        except Exception as e:  # noqa
+            first['harness'] = exc(e)
+        out['first_use'] = first
+        try:
+            out['validation'] = [str(s)[:300] for s in m.validation(row)]
+        except Exception as e:  # noqa
+            out['validation'] = exc(e)
+        # reference: a FRESH model object that only ever sees data set B
+        fresh = []
+        try:
+            m2 = build(c)
+            row2 = one_row(c)
+            for eps_lab in c['draws']:
+                try:
+                    sol = m2.forecast_bisection_one_draw(one_row_of_database=row2, total_budget=c['budget'],
+                                                         epsilon=eps_by_position(m2, c, eps_lab))
+                    fresh.append({str(k): fin(v) for k, v in sol.items()})
+                except Exception as e:  # noqa
+                    fresh.append(exc(e))
+        except Exception as e:  # noqa
+            fresh = exc(e)
+        out['fresh'] = fresh
     if c.get('craft_stale'):
         # test-input construction: choose the budget one ulp away from the total consumption at the
         # first bisection midpoint (see C18.py, corpus 'stale-dual')
